@@ -105,6 +105,12 @@ def judge(kind: str, canonical: str, variant: str):
         n1 = lib.iban_parse(variant, True)
         if "foreign" not in (n0[0], n1[0]) and (n0[0] == "ok") != (n1[0] == "ok"):
             probs.append(("iban:variant-outcome-differs-with-national-validation", n0, n1))
+    if kind == "bic":
+        # ... and when strict SWIFT compliance is requested
+        s0 = lib.bic_parse(canonical, True)
+        s1 = lib.bic_parse(variant, True)
+        if "foreign" not in (s0[0], s1[0]) and ((s0[0] == "ok") != (s1[0] == "ok") or (s0[0] == "ok" and s0[1] != s1[1])):
+            probs.append(("bic:variant-outcome-differs-in-strict-mode", s0, s1))
     if "foreign" in (k0, k1):
         return probs  # C05's subject
     if (k0 == "ok") != (k1 == "ok"):
@@ -181,6 +187,15 @@ def component_problems(country: str, body: str):
 
     want = spell(comps)
     probs = []
+    # a value that is nothing but white-space is no value: the same outcome as "" (also for the
+    # branch code of a country that has no branch field)
+    for n in ("bank_code", "branch_code", "account_code"):
+        empty = spell(dict(comps, **{n: ""}))
+        for blank in (" ", "\t", "\n", "\u00a0", "  \r\n"):
+            got = spell(dict(comps, **{n: blank}))
+            if got != empty:
+                probs.append((f"components:blank-only-{n}-is-not-treated-like-an-empty-one", empty, (blank, got)))
+                break
     styles = [str.lower, lambda t: " ".join(t), lambda t: t[:1] + "\t" + t[1:].lower(),
               lambda t: "\u00a0" + t.lower() + "\n", lambda t: t.swapcase()]
     for si, st in enumerate(styles):
